@@ -58,8 +58,9 @@ type arrival struct {
 }
 
 type c22 struct {
-	rec *evi.Recorder
-	rt  *rapid.T
+	rec  *evi.Recorder
+	rt   *rapid.T
+	viol bool // report through rec.Violation (deterministic families)
 }
 
 func (c *c22) fail(key, what string, s served, extra map[string]any) {
@@ -68,7 +69,18 @@ func (c *c22) fail(key, what string, s served, extra map[string]any) {
 	for k, v := range extra {
 		cs[k] = v
 	}
+	if c.viol || c.rt == nil {
+		c.rec.Violation(key, what+" ["+s.g.Desc()+"]", cs)
+		return
+	}
 	c.rec.Fail(c.rt, key, what+" ["+s.g.Desc()+"]", cs)
+}
+
+// judgeV is judge for the deterministic families (no rapid case to fail).
+func (c *c22) judgeV(route string, ntn bool, s served, a arrival) {
+	c.viol = true
+	defer func() { c.viol = false }()
+	c.judge(route, ntn, s, a)
 }
 
 // judge compares one arrival with what was served.
@@ -432,7 +444,7 @@ func drawPlan(rt *rapid.T, name string) rawpeer.Plan {
 
 func TestC22(t *testing.T) {
 	rec := evi.New(t, "C22", evi.Exploration,
-		"generated blocks (C01 generator: real templates of every era, rebuilt transaction lists, non-canonical CBOR style plans, recomputed header commitment) are pushed (route 1) through NewMsgRollForwardNtC/NtN -> cbor.Encode -> independent xcbor check of the wire shape -> NewMsgFromCborNtC/NtN -> the client's type mapping and block/header decoder, also with the wire message's outer heads restyled; (route 2) through chainsync.Server.RollForward on a real server Connection to the RollForward/RollForwardRaw callback of a real client Connection over an in-memory pipe with generator-chosen read fragmentation, 1..3 blocks per session, NtC (all eras) and NtN (Shelley+). (ownership family, one case in two) the message is built from a scratch buffer holding block A which is then overwritten (next block B / zeros / noise / shifted / untouched) before the message is encoded and decoded, and likewise the wire buffer is overwritten after the client-side decode before block/header are inspected. Oracle: same block type; NtC byte-identical block (raw and decoded Cbor()) and hash; NtN header bytes == header item range of the served block, header.Hash() == blake2b-256(header range) == block.Hash(), era tag == era index and maps back to the served type. non-trivial = the message decoded at the receiving side and the block is not a fixture as-is (rebuilt tx list or >=1 non-canonical head); distinct by (route, mode, template, ops, edits)")
+		"generated blocks (C01 generator: real templates of every era, rebuilt transaction lists, non-canonical CBOR style plans, recomputed header commitment) are pushed (route 1) through NewMsgRollForwardNtC/NtN -> cbor.Encode -> independent xcbor check of the wire shape -> NewMsgFromCborNtC/NtN -> the client's type mapping and block/header decoder, also with the wire message's outer heads restyled; (route 2) through chainsync.Server.RollForward on a real server Connection to the RollForward/RollForwardRaw callback of a real client Connection over an in-memory pipe with generator-chosen read fragmentation, 1..3 blocks per session, NtC (all eras) and NtN (Shelley+). (ownership family, one case in two) the message is built from a scratch buffer holding block A which is then overwritten (next block B / zeros / noise / shifted / untouched) before the message is encoded and decoded, and likewise the wire buffer is overwritten after the client-side decode before block/header are inspected. (server family, deterministic) chainsync.NewServer in Mode {NtC,NtN,omitted} x Role {omitted,Server} serves every era fixture + a RollBackward to the raw peer and to a real client of the mode it registered as. Oracle: same block type; NtC byte-identical block (raw and decoded Cbor()) and hash; NtN header bytes == header item range of the served block, header.Hash() == blake2b-256(header range) == block.Hash(), era tag == era index and maps back to the served type. non-trivial = the message decoded at the receiving side and the block is not a fixture as-is (rebuilt tx list or >=1 non-canonical head); distinct by (route, mode, template, ops, edits)")
 	defer rec.Finish()
 	rec.Assume(
 		"xcbor defines the header item range; blake2b-256 from x/crypto",
@@ -441,7 +453,7 @@ func TestC22(t *testing.T) {
 		"conditional on acceptance: a non-canonical block/header the receiving decoder rejects is counted, not flagged",
 		"the 90 s waits in the live route are harness liveness bounds; a timeout is reported as inconclusive (harness error), never as a violation",
 	)
-	harnessTimeout := ""
+	harnessTimeout := serverE2E(rec) // deterministic family: real server in every mode configuration
 	defer func() {
 		if harnessTimeout != "" {
 			t.Errorf("harness (inconclusive, not a violation): %s", harnessTimeout)
